@@ -152,9 +152,13 @@ class Printer(BasePrinter):
     def _populate_block_name(
         self, block: Block, block_index: int | None = None
     ) -> None:
-        """Assign a name to a block. The block must not already have one."""
+        """
+        Assign a name to a block. The block must not already have one.
+        A hint that looks like a default name (`bb<digits>`) would clash with the
+        positional names and is read back as "no hint", so it is ignored.
+        """
         assert block not in self._blocks
-        if block.name_hint:
+        if block.name_hint and not Block.is_default_block_name(block.name_hint):
             curr_ind = self.block_names.get(block.name_hint, 0)
             suffix = f"_{curr_ind}" if curr_ind != 0 else ""
             name = f"{block.name_hint}{suffix}"
